@@ -76,6 +76,11 @@ type EPConf struct {
 	// object (so that two configurations share one) instead of building one from Roots.
 	TimeYear int            `json:"time_year,omitempty"`
 	RootPool *x509.CertPool `json:"-"`
+	// OuterPMTU (Clone 2): the PMTU of the listener configuration, when it differs from the PMTU of the
+	// configuration GetConfigForClient returns (which is the one in force). ChainPad: that many copies of the CA
+	// certificate are appended to the first certificate's chain (a Certificate message above the record limit).
+	OuterPMTU int `json:"outer_pmtu,omitempty"`
+	ChainPad  int `json:"chain_pad,omitempty"`
 	// WrapKeys counts private-key operations through wrappers.
 	WrapKeys bool `json:"wrap_keys,omitempty"`
 }
@@ -188,8 +193,14 @@ func (e *EPConf) BuildDTLCP(env *Env, name string) *dtlcp.Config {
 	if e.CookieSecret != "" {
 		c.CookieSecret = []byte(e.CookieSecret)
 	}
-	for _, n := range e.Certs {
-		c.Certificates = append(c.Certificates, dtlcp.Certificate{Certificate: [][]byte{fix.DER(n)}, PrivateKey: e.key(env, n)})
+	for i, n := range e.Certs {
+		chain := [][]byte{fix.DER(n)}
+		if i == 0 {
+			for k := 0; k < e.ChainPad; k++ {
+				chain = append(chain, fix.DER("ca1"))
+			}
+		}
+		c.Certificates = append(c.Certificates, dtlcp.Certificate{Certificate: chain, PrivateKey: e.key(env, n)})
 	}
 	if e.Cache != "" {
 		c.SessionCache = env.DCaches[e.Cache]
@@ -201,6 +212,9 @@ func (e *EPConf) BuildDTLCP(env *Env, name string) *dtlcp.Config {
 		inner := c.Clone()
 		outer := c.Clone()
 		outer.Certificates, outer.SessionCache = nil, nil
+		if e.OuterPMTU != 0 {
+			outer.PMTU = e.OuterPMTU
+		}
 		outer.GetConfigForClient = func(*dtlcp.ClientHelloInfo) (*dtlcp.Config, error) { return inner, nil }
 		c = outer
 	}
